@@ -7,6 +7,9 @@ Reads (current working tree, every run):
     iff it is a subclass of pptx.opc.package.XmlPart              -> gen_xml_cts / gen_blob_cts
   * AST of pptx/opc/serialized.py::_ContentTypesItem._defaults_and_overrides: the initial
     `CaseInsensitiveDict(rels=..., xml=...)`                      -> gen_init_defaults
+    and the shape of the Default/Override rule (a Default only when the table lists exactly
+    this one content type for the extension), which model/Opc.v in_table transcribes;
+    any other shape is reported as unmodelled
   * AST of pptx/api.py::_is_pptx_package: the tuple of accepted main content types
                                                                   -> gen_pres_cts
   * AST of pptx/opc/package.py::OpcPackage.main_document_part: the relationship type
@@ -119,6 +122,30 @@ def main():
                     unmodelled.append("initial defaults: %s" % e)
     if not found:
         unmodelled.append("_ContentTypesItem._defaults_and_overrides: initial defaults not recognised")
+    # the rule deciding Default vs Override, as modelled by in_table in model/Opc.v:
+    #   ext_content_types = [ct for e, ct in default_content_types if e == ext.lower()]
+    #   if ext_content_types == [content_type]: defaults[ext] = content_type  else: overrides[partname] = content_type
+    rule_ok = False
+    if f is not None:
+        comp_ok = test_ok = False
+        for node in ast.walk(f):
+            if (isinstance(node, ast.Assign) and len(node.targets) == 1 and isinstance(node.targets[0], ast.Name)
+                    and node.targets[0].id == "ext_content_types" and isinstance(node.value, ast.ListComp)):
+                lc = node.value
+                g = lc.generators[0] if len(lc.generators) == 1 else None
+                if (g is not None and isinstance(lc.elt, ast.Name) and isinstance(g.target, ast.Tuple)
+                        and [getattr(e, "id", None) for e in g.target.elts] == ["e", lc.elt.id]
+                        and isinstance(g.iter, ast.Name) and g.iter.id == "default_content_types"
+                        and len(g.ifs) == 1 and ast.unparse(g.ifs[0]) == "e == ext.lower()"):
+                    comp_ok = True
+            if isinstance(node, ast.If) and ast.unparse(node.test) == "ext_content_types == [content_type]":
+                body = [ast.unparse(b) for b in node.body]
+                orelse = [ast.unparse(b) for b in node.orelse]
+                if body == ["defaults[ext] = content_type"] and orelse == ["overrides[partname] = content_type"]:
+                    test_ok = True
+        rule_ok = comp_ok and test_ok
+    if not rule_ok:
+        unmodelled.append("_ContentTypesItem._defaults_and_overrides: Default/Override rule is not the single-type-per-extension rule modelled by in_table")
 
     # accepted main content types of api._is_pptx_package
     pres_cts = []
